@@ -226,6 +226,38 @@ def hedgers_finite(ctx: Ctx) -> None:
                         ctx.violation(f"hedger:nonfinite-pl:{mk.__name__}:{dcls.__name__}:{scls.__name__}", f"{mk.__name__} P&L of {dcls.__name__} on {scls.__name__} is not finite", {"scripted_paths": scripted})
 
 
+def hedgers_finite_underflow(ctx: Ctx) -> None:
+    """Volatility AND step size both tiny but positive, so small that their product sigma*sqrt(t) underflows to zero although
+    neither factor is zero (sigma = 1e-200, dt = 1e-260; 1e-160 each; 1e-30 and 1e-32 in float32): the hedges and the P&L are
+    finite - European options under both hedgers at, below and above the strike; the binaries under the Black-Scholes hedger
+    away from the strike (their Whalley-Wilmott hedge needs the binary gamma at sigma*sqrt(t) = 0: the known finding)."""
+    from pfhedge.instruments import AmericanBinaryOption, BrownianStock, EuropeanBinaryOption, EuropeanOption
+    from pfhedge.nn import BlackScholes, Hedger, WhalleyWilmott
+    for dtype, regimes in ((torch.float64, ((1e-200, 1e-260), (1e-160, 1e-160), (1e-300, 1e-10))), (torch.float32, ((1e-30, 1e-32), (1e-25, 1e-25)))):
+        for sigma, dt in regimes:
+            for dcls, models, strikes in ((EuropeanOption, (BlackScholes, WhalleyWilmott), (0.9, 1.0, 1.1)), (EuropeanBinaryOption, (BlackScholes,), (0.9, 1.1)), (AmericanBinaryOption, (BlackScholes,), (0.9, 1.1))):
+                for strike in strikes:
+                    for mk in models:
+                        stock = BrownianStock(sigma=sigma, cost=1e-3, dt=dt, dtype=dtype)
+                        d = dcls(stock, maturity=6 * dt, strike=strike)
+                        torch.manual_seed(ctx.seed)
+                        try:
+                            d.simulate(n_paths=4)
+                            if tuple(stock.spot.shape) != (4, 7):
+                                ctx.skip("underflow regime: the grid of 6 tiny steps is not representable")
+                                continue
+                            model = mk(d)
+                            h = Hedger(model, model.inputs())
+                            hedge, plv = h.compute_hedge(d), h.compute_pl(d)
+                        except Exception as e:
+                            ctx.violation(f"hedger:raises:{mk.__name__}:underflow", f"{mk.__name__} hedger raised {type(e).__name__} on {dcls.__name__} with sigma={sigma}, dt={dt}", {"error": repr(e)[:200]})
+                            continue
+                        ctx.count(n=4)
+                        if not bool(hedge.isfinite().all()) or not bool(plv.isfinite().all()):
+                            ctx.violation(f"hedger:nonfinite:{mk.__name__}:{dcls.__name__}:underflow", f"{mk.__name__} hedge / P&L of {dcls.__name__} (strike {strike}) is not finite when sigma = {sigma} and dt = {dt} "
+                                          "(both positive, their product underflows)", {"sigma": sigma, "dt": dt, "strike": strike, "dtype": str(dtype), "hedge": hedge[0, 0].tolist()})
+
+
 def modules_at_maturity(ctx: Ctx) -> None:
     """The module built from a derivative, at the derivative's own maturity column: price() with no arguments equals the payoff
     of the CURRENT simulation (also after the derivative was simulated again with the same shape); forward(input) - the call
@@ -280,6 +312,7 @@ def check(ctx: Ctx) -> None:
     rejects_negative(ctx)
     modules_at_maturity(ctx)
     hedgers_finite(ctx)
+    hedgers_finite_underflow(ctx)
     for r in res.records:
         ctx.distinct.add(json.dumps({k: r[k] for k in ("rel", "mrel", "mabove", "tz", "vz")}))
     ctx.distinct_count_extra = 0
